@@ -172,11 +172,15 @@ def run_property(pid, tier, seed, jobs):
         "coverage": {
             "obligations": n_obl, "discharged": n_ok, "path_vcs": n_vcs,
             "checker_cmd": "bin/check %s --tier %s" % (pid, tier),
-            "trusted_base": sorted("lib:" + t for t in trusted) + sorted("inlined:" + i for i in inlined),
+            "trusted_base": sorted("lib:" + t for t in trusted) + sorted("inlined:" + i for i in inlined)
+            + sorted("assumed-contract:" + k for k in used if getattr(reg.get(k), "coarse", False)
+                     or getattr(reg.get(k), "trusted", False)),
             "by_kind": by_kind, "by_backend": {"z3-%s" % _z3v(): n_ok},
             "solver_time_s": round(solver_time, 2),
             "functions_under_contract": funcs,
             "callee_contracts_used": sorted(used),
+            "assumed_contracts": sorted(k for k in used if getattr(reg.get(k), "coarse", False)
+                                        or getattr(reg.get(k), "trusted", False)),
             "undecided": [u[0] for u in undecided], "known_findings": [k[0] for k in knowns],
             "violations": [v[0] for v in violations],
             "samples": samples or [{"note": "no discharged obligation"}],
